@@ -318,12 +318,21 @@ pub mod escaped {
 /// A fresh file name in a per-process scratch directory (`$VERIF_SCRATCH`, default
 /// `/verif/work`), or `None` if no such directory can be made.
 pub fn scratch_file(ext: &str) -> Option<std::path::PathBuf> {
-    use std::sync::atomic::{AtomicU64, Ordering};
-    static N: AtomicU64 = AtomicU64::new(0);
+    // One path per process and kind, used again and again: what a program that saves
+    // and reloads "the" file does, and the only way a stale cache keyed by path shows.
     let root = std::env::var("VERIF_SCRATCH").unwrap_or_else(|_| "/verif/work".into());
     let dir = std::path::Path::new(&root).join(format!("fs-{}", std::process::id()));
     std::fs::create_dir_all(&dir).ok()?;
-    Some(dir.join(format!("f{}.{ext}", N.fetch_add(1, Ordering::Relaxed))))
+    Some(dir.join(format!("scratch.{ext}")))
+}
+
+/// The same bytes with their last decimal digit changed: a rewrite of a file that keeps
+/// its length (and, written at once, quite possibly its timestamp) but not its content.
+pub fn same_length_variant(bytes: &[u8]) -> Option<Vec<u8>> {
+    let i = bytes.iter().rposition(|b| b.is_ascii_digit())?;
+    let mut v = bytes.to_vec();
+    v[i] = b'0' + (v[i] - b'0' + 1) % 10;
+    Some(v)
 }
 
 pub fn scratch_cleanup() {
